@@ -21,8 +21,14 @@
   cells, `Cell.pyEq`, plus one if `missing_values > 0`); `percent` evaluates the float expression in `PyV`.
   `SSJ.Profiler.profileTable` = the whole call.
 
-  HYPOTHESES.  The two entry theorems need a table with at least one row (the real code raises ZeroDivisionError on an
-  empty table: C15) and fewer than 2^53 rows (row counts are then exact doubles).  Nothing else: any cells, any mix.
+  HYPOTHESES.  The two entry theorems need fewer than 2^53 rows (row counts are then exact doubles).  Nothing else:
+  any cells, any mix, any number of rows.  A TABLE WITHOUT ROWS (accepted since /repo 39fa1bc; it used to raise
+  ZeroDivisionError) has the entries `'0 (0.0%)'`, `'0 (0.0%)'` and is recommended as a key (`empty_column_entries`):
+  the code does not divide then but takes `0.0`, and the specification's `percentString k 0` is "0.0" as well
+  (`percent_no_rows`; `k / 0 = 0` in `Rat`), so `unique_entry_exact` / `missing_entry_exact` hold for it too.  The
+  hypothesis `1 ≤ n` is kept where the statement speaks of the exact percentage `100·k/n` (`percent_two_decimals`,
+  `percent_correctly_rounded`), where it is needed for the statement to be true (`percent_all`: "100.0" — an empty
+  table shows "0.0"), and `col ≠ []` in `counts_in_range` (an empty column has 0 distinct values, not ≥ 1).
 
   TRUSTED.  `reprHundredths c` is CPython's `repr` of the double nearest to `c/100` for `0 ≤ c ≤ 10000` (header of the
   spec file; exhaustively checked on CPython).  `percent_two_decimals` proves that the profiler's percentage is
@@ -39,15 +45,23 @@ open SSJ SSJ.Profiler SSJ.ProfilerSpec
 /-! ### the two statistics entries (main clause) -/
 
 /-- the 'Unique values' entry is `'<d> (<p>%)'` with `d` the exact number of distinct values of the column (a missing
-    value counting as one value) and `p` Python's two-decimal percentage of `d` in the number of rows -/
-theorem unique_entry_exact (col : List Cell) (h0 : col ≠ []) (hn : col.length < 2 ^ 53) :
+    value counting as one value) and `p` Python's two-decimal percentage of `d` in the number of rows (for a table
+    without rows: `'0 (0.0%)'`, see `empty_column_entries`) -/
+theorem unique_entry_exact (col : List Cell) (hn : col.length < 2 ^ 53) :
     (profileColumn col).1 = statString (distinctValues col) col.length :=
-  profileColumn_fst col h0 hn
+  profileColumn_fst col hn
 
 /-- the 'Missing values' entry is `'<m> (<p>%)'` with `m` the exact number of missing values of the column -/
-theorem missing_entry_exact (col : List Cell) (h0 : col ≠ []) (hn : col.length < 2 ^ 53) :
+theorem missing_entry_exact (col : List Cell) (hn : col.length < 2 ^ 53) :
     (profileColumn col).2.1 = statString (missingValues col) col.length :=
-  profileColumn_snd col h0 hn
+  profileColumn_snd col hn
+
+/-- a column of a table WITHOUT ROWS: 0 distinct values, 0 missing values, both shown with 0.0 %, and — all (zero)
+    values distinct, none missing — the key recommendation.  Explicit strings: this does not go through the
+    specification's `percentString`, whose expression `float(k) / float(n)` has no Python value for `n = 0` -/
+theorem empty_column_entries :
+    profileColumn [] = ("0 (0.0%)", "0 (0.0%)", "This attribute can be used as a key attribute.") :=
+  profileColumn_nil
 
 /-- the counts the model computes ARE the specification's numbers (any column, also the empty one) -/
 theorem unique_count_exact (col : List Cell) : uniqueCount col = distinctValues col := uniqueCount_eq col
@@ -68,6 +82,8 @@ theorem distinct_values_missing_as_one (col : List Cell) :
 theorem distinct_eq_rows_iff (col : List Cell) : distinctValues col = col.length ↔ AllDistinct col :=
   distinctValues_eq_length_iff col
 
+/-- the counts are in range; a column with at least one row has at least one distinct value (the column of a table
+    without rows has none: `col ≠ []` is needed for the middle clause only) -/
 theorem counts_in_range (col : List Cell) (h : col ≠ []) :
     missingValues col ≤ col.length ∧ 1 ≤ distinctValues col ∧ distinctValues col ≤ col.length :=
   profileColumn_counts col h
@@ -77,12 +93,18 @@ theorem missing_count_pos_iff (col : List Cell) : 0 < missingValues col ↔ Cell
 
 /-! ### the percentage -/
 
-/-- for a count `k` of a table with `n` rows (`0 ≤ k ≤ n`, `1 ≤ n < 2^53`) the float expression
-    `round(float(k) / float(n) * 100, 2)` evaluates to a double without any Python error, and the formatted
-    statistic is the specification's string: the model's `"?%"` fallback is never taken -/
-theorem percent_never_fallback (k n : Nat) (hk : k ≤ n) (h1 : 1 ≤ n) (hn : n < 2 ^ 53) :
+/-- for a count `k` of a table with `n` rows (`0 ≤ k ≤ n < 2^53`; `n = 0` included, the percentage is then the
+    literal `0.0`) the float expression `round(float(k) / float(n) * 100, 2)` evaluates to a double without any Python
+    error, and the formatted statistic is the specification's string: the model's `"?%"` fallback is never taken -/
+theorem percent_never_fallback (k n : Nat) (hk : k ≤ n) (hn : n < 2 ^ 53) :
     percent k n = .float (percentDouble k n) ∧ formatStatistic k (percent k n) = statString k n :=
-  ⟨percent_eq k n hk h1 hn, formatStatistic_percent k k n hk h1 hn⟩
+  ⟨percent_eq k n hk hn, formatStatistic_percent k k n hk hn⟩
+
+/-- a table without rows: the percentage is `0.0` in the model (no division is evaluated) and in the specification
+    (`k / 0 = 0` in `Rat`), printed "0.0" -/
+theorem percent_no_rows (k : Nat) :
+    percent k 0 = .float 0 ∧ percentDouble k 0 = 0 ∧ percentString k 0 = "0.0" :=
+  ⟨rfl, percentDouble_zero_rows k, percentString_zero_rows k⟩
 
 /-- "percentage to two decimals": the percentage is the double nearest to a two-decimal number `c/100`
     (`0 ≤ c ≤ 10000`), it is printed as that decimal, and `c/100` is the exact percentage `100·k/n` rounded to two
@@ -91,11 +113,11 @@ theorem percent_two_decimals (k n : Nat) (hk : k ≤ n) (h1 : 1 ≤ n) (hn : n <
     ∃ c : Nat, c ≤ 10000 ∧ percentDouble k n = F64.rn ((c : Rat) / 100) ∧
       percentString k n = reprHundredths c ∧
       |(c : Rat) / 100 - 100 * (k : Rat) / n| ≤ 1 / 200 + 1 / 10 ^ 13 := by
-  obtain ⟨c0, c1⟩ := pctHundredths_bounds hk h1
+  obtain ⟨c0, c1⟩ := pctHundredths_bounds hk
   obtain ⟨c, hc⟩ := Int.eq_ofNat_of_zero_le c0
   refine ⟨c, by omega, ?_, ?_, ?_⟩
   · rw [percentDouble_eq_two_decimals, hc]; rfl
-  · rw [percentString_eq hk h1, hc]; rfl
+  · rw [percentString_eq hk, hc]; rfl
   · have := pctHundredths_close hk h1 hn
     rw [hc, Int.cast_natCast] at this
     exact this
@@ -106,19 +128,20 @@ theorem percent_correctly_rounded (k n c : Nat) (hk : k ≤ n) (h1 : 1 ≤ n) (h
     (hlo : (c : Rat) - 1 / 2 + 1 / 10 ^ 10 ≤ 10000 * (k : Rat) / n)
     (hhi : 10000 * (k : Rat) / n ≤ (c : Rat) + 1 / 2 - 1 / 10 ^ 10) :
     percentString k n = reprHundredths c := by
-  rw [percentString_eq hk h1, pctHundredths_of_near c hk h1 hn hlo hhi]; rfl
+  rw [percentString_eq hk, pctHundredths_of_near c hk h1 hn hlo hhi]; rfl
 
-/-- every row counted: "100.0"; none: "0.0" -/
+/-- every row counted: "100.0" (needs a row: a table without rows shows "0.0", `percent_no_rows`); none: "0.0" -/
 theorem percent_all (n : Nat) (h1 : 1 ≤ n) : percentString n n = "100.0" := by
-  rw [percentString_eq le_rfl h1, pctHundredths_self h1]; decide
+  rw [percentString_eq le_rfl, pctHundredths_self h1]; decide
 
-theorem percent_none (n : Nat) (h1 : 1 ≤ n) : percentString 0 n = "0.0" := by
-  rw [percentString_eq (Nat.zero_le n) h1, pctHundredths_zero]; decide
+theorem percent_none (n : Nat) : percentString 0 n = "0.0" := by
+  rw [percentString_eq (Nat.zero_le n), pctHundredths_zero]; decide
 
 /-! ### the comment -/
 
 /-- the comment recommends the attribute as a key exactly when all values are distinct and none is missing —
-    for tables of ANY size (the pinned code decided on percentages rounded to two decimals) -/
+    for tables of ANY size (the pinned code decided on percentages rounded to two decimals), the table without rows
+    included (vacuously all distinct, none missing: recommended) -/
 theorem key_recommended_iff (col : List Cell) :
     (profileColumn col).2.2 = "This attribute can be used as a key attribute." ↔
       AllDistinct col ∧ Cell.missing ∉ col :=
@@ -130,10 +153,10 @@ theorem warns_iff (col : List Cell) :
   profileColumn_ignore_prefix_iff col
 
 /-- … and the warning then quotes the 'Missing values' entry -/
-theorem warning_text (col : List Cell) (h0 : col ≠ []) (hn : col.length < 2 ^ 53) (hm : Cell.missing ∈ col) :
+theorem warning_text (col : List Cell) (hn : col.length < 2 ^ 53) (hm : Cell.missing ∈ col) :
     (profileColumn col).2.2 =
       s!"Joining on this attribute will ignore {statString (missingValues col) col.length} rows." := by
-  rw [← missing_entry_exact col h0 hn]
+  rw [← missing_entry_exact col hn]
   exact (profileColumn_ignore_iff col).mpr hm
 
 /-! ### the table -/
@@ -148,18 +171,14 @@ theorem one_row_per_attribute (f : Frame) (attrs : Option (List String)) (rows :
   cases attrs with
   | none =>
     simp only [Option.getD] at h ⊢
-    split at h
-    · simp at h
-    · simpa using h.symm
+    simpa using h.symm
   | some l =>
     simp only [Option.getD] at h ⊢
     cases hv : (l.forM (fun a => validateAttr a f) : Except PyErr PUnit) with
     | error e => simp [hv] at h
     | ok u =>
       simp only [hv] at h
-      split at h
-      · simp at h
-      · simpa using h.symm
+      simpa using h.symm
 
 /-- argument validation of the profiler: a non-DataFrame is rejected with TypeError -/
 theorem rejects_non_dataframe (attrs : Option (List String)) : profileTable none attrs = .error .typeErr := by
@@ -195,7 +214,6 @@ example : profileColumn mixed =
   have hu : distinctValues mixed = 3 := by decide
   have hm : missingValues mixed = 2 := by decide
   have hl : mixed.length = 6 := rfl
-  have h0 : mixed ≠ [] := by decide
   have hn : mixed.length < 2 ^ 53 := by rw [hl]; norm_num
   have e1 : percentString 3 6 = "50.0" := by
     rw [percent_correctly_rounded 3 6 5000 (by norm_num) (by norm_num) (by norm_num) (by norm_num) (by norm_num)]; decide
@@ -203,9 +221,9 @@ example : profileColumn mixed =
     rw [percent_correctly_rounded 2 6 3333 (by norm_num) (by norm_num) (by norm_num) (by norm_num) (by norm_num)]; decide
   have s1 : statString 3 6 = "3 (50.0%)" := by unfold statString; rw [e1]; decide
   have s2 : statString 2 6 = "2 (33.33%)" := by unfold statString; rw [e2]; decide
-  have a := unique_entry_exact mixed h0 hn
-  have b := missing_entry_exact mixed h0 hn
-  have c := warning_text mixed h0 hn (by decide)
+  have a := unique_entry_exact mixed hn
+  have b := missing_entry_exact mixed hn
+  have c := warning_text mixed hn (by decide)
   rw [hu, hl, s1] at a
   rw [hm, hl, s2] at b
   rw [hm, hl, s2] at c
@@ -216,5 +234,11 @@ example : profileColumn mixed =
 example : (profileColumn [.int 1, .int 2, .int 1]).2.2 = "" := by decide
 example : (profileColumn [.int 1, .int 2, .int 3]).2.2 = "This attribute can be used as a key attribute." := by decide
 example : (profileColumn [.int 1, .flt 1, .int 3]).2.2 = "" := by decide
+
+/-- the table without rows, through the general theorems: entry = `statString 0 0` = '0 (0.0%)' -/
+example : (profileColumn []).1 = "0 (0.0%)" := by
+  rw [unique_entry_exact [] (by norm_num)]
+  show statString 0 0 = _
+  exact statString_zero_rows
 
 end SSJ.Props.C17
